@@ -353,8 +353,15 @@ class C17(Check):
             Bw = ''.join(sorted(wbd.word_break_chars)) if wbd is not None else B
             out = []
             for prev, curr in case.input['pairs']:
-                pw = th.get_line_words(prev, word_break_chars=Bw)
-                cw = th.get_line_words(curr, word_break_chars=Bw)
+                pw_r = call(th.get_line_words, prev, word_break_chars=Bw)
+                cw_r = call(th.get_line_words, curr, word_break_chars=Bw)
+                if 'ok' not in pw_r or 'ok' not in cw_r:
+                    # the splitter itself raised: an outcome to be judged, not a harness failure
+                    err = (pw_r if 'ok' not in pw_r else cw_r)['err']
+                    out.append({'prev_words': pw_r.get('ok', []), 'curr_words': cw_r.get('ok', []),
+                                'decision': {'err': err}, 'split_raised': err})
+                    continue
+                pw, cw = pw_r['ok'], cw_r['ok']
                 d = canon(call(ts.determine_word_break, cw, pw, wbd=wbd, word_break_chars=B))
                 out.append({'prev_words': pw, 'curr_words': cw, 'decision': d})
             return out
@@ -496,6 +503,10 @@ class C17(Check):
             for (prev, curr), x in zip(case.input['pairs'], out):
                 one = Case('pairs', {'B': B, 'det': det, 'pairs': [[prev, curr]]}, case.tags)
                 pw, cw, d = x['prev_words'], x['curr_words'], x['decision']
+                if x.get('split_raised'):
+                    bad('split-raises', f'get_line_words raised {x["split_raised"]} on {prev!r} or {curr!r} (B={Bw!r})',
+                        one, [x])
+                    continue
                 if 'ok' not in d:
                     bad('determine-raises', f'determine_word_break on {prev!r} / {curr!r} raised {d["err"]}', one, [x])
                     continue
